@@ -145,11 +145,12 @@ type c11Case struct {
 	// p = the next out and the next err write issued concurrently from two goroutines;
 	// d = a Double call; w = the plugin is idle for `idle` ms (the connection stays up, nothing is
 	// written).  "I" = two goroutines, one per stream, each issuing its writes in order.
-	steps  string
-	idle   int    // ms, the length of each 'w' step
-	adelay int    // ms between Start returning (the plugin serving, its pre-attach bursts written) and the host's Client()
-	bg     bool   // a background goroutine keeps calling Double during the script
-	cseed  uint64 // seed of the model's (unobservable) read cuts and select order
+	steps   string
+	idle    int    // ms, the length of each 'w' step
+	cattach bool   // the host attaches from four goroutines at once (Client() called concurrently)
+	adelay  int    // ms between Start returning (the plugin serving, its pre-attach bursts written) and the host's Client()
+	bg      bool   // a background goroutine keeps calling Double during the script
+	cseed   uint64 // seed of the model's (unobservable) read cuts and select order
 }
 
 func (c *c11Case) line() string {
@@ -162,10 +163,14 @@ func (c *c11Case) line() string {
 	}
 	return fmt.Sprintf("C11 proto=%s mux=%s auto=%s bout=%s berr=%s out=%s err=%s steps=%s bg=%s cseed=%d idle=%d",
 		c.proto, b01(c.mux), b01(c.auto), bo, be, c11Specs(c.out), c11Specs(c.err), c.steps, b01(c.bg), c.cseed, c.idle) + func() string {
+		x := ""
 		if c.adelay > 0 {
-			return fmt.Sprintf(" adelay=%d", c.adelay)
+			x += fmt.Sprintf(" adelay=%d", c.adelay)
 		}
-		return ""
+		if c.cattach {
+			x += " cattach=1"
+		}
+		return x
 	}()
 }
 
@@ -173,6 +178,7 @@ func c11FromLine(m map[string]string) (*c11Case, error) {
 	c := &c11Case{proto: m["proto"], mux: m["mux"] == "1", auto: m["auto"] == "1", steps: m["steps"], bg: m["bg"] == "1"}
 	c.cseed, _ = strconv.ParseUint(m["cseed"], 10, 64)
 	c.adelay, _ = strconv.Atoi(m["adelay"])
+	c.cattach = m["cattach"] == "1"
 	c.idle, _ = strconv.Atoi(m["idle"])
 	if c.idle < 0 || c.idle > 120000 {
 		return nil, fmt.Errorf("bad idle")
@@ -533,6 +539,16 @@ func runC11(c *c11Case, st *c11Stats) (impl, pred, detail string) {
 		if c.adelay > 0 {
 			time.Sleep(time.Duration(c.adelay) * time.Millisecond)
 		}
+		if c.cattach {
+			// several goroutines of the host ask for the protocol client at the same moment: there must still be ONE
+			// client, hence one copy of every byte
+			var wg sync.WaitGroup
+			for g := 0; g < 3; g++ {
+				wg.Add(1)
+				go func() { defer wg.Done(); client.Client() }()
+			}
+			defer wg.Wait()
+		}
 		cp, err := client.Client()
 		if err != nil {
 			return fail("client", err)
@@ -742,7 +758,9 @@ func hostC11(o *out, replay string) {
 		cases = append(cases, c11Ladder(i))
 	}
 	for i := 0; i < nRandom; i++ {
-		cases = append(cases, c11Generate(r.fork(uint64(i)), i))
+		c := c11Generate(r.fork(uint64(i)), i)
+		c.cattach = i%3 == 0
+		cases = append(cases, c)
 	}
 	type res struct{ impl, pred, detail string }
 	results := make([]res, len(cases))
